@@ -153,6 +153,15 @@ def check(ctx):
             ok_acc = chunk is not None and len(ex) == 1 and norm(ex[0].args[0]) == chunk and rets == ['data'] and len(decs) == 1 and len(stores) == 1 and \
                 decs[0][1] is ast.Sub and norm(decs[0][2]) == 'len(%s)' % chunk
         else:
+            # a read-ahead buffer kept on the transport: bytes beyond the requested size survive the call - and a disconnect, unless
+            # connect() / disconnect() empties it.  Bytes of a dead stream must not prefix the next one.
+            acc = [norm(c.func.value) for c in walk_own(wl[0]) if method_call(c, 'extend') and norm(c.func.value).startswith('self.')]
+            if acc:
+                cls_ = rdd.cls
+                resets = [f_.qualname for f_ in cls_.methods.values() if f_.name in ('connect', 'disconnect') for s_ in walk_own(f_.node)
+                          if (isinstance(s_, ast.Assign) and norm(s_.targets[0]) == acc[0]) or (isinstance(s_, ast.Expr) and method_call(s_.value, 'clear') and norm(s_.value.func.value) == acc[0])]
+                ctx.inst('R4', rdd, 'read-buffer-does-not-outlive-the-stream', bool(resets),
+                         'received bytes are collected in %s, which no connect() / disconnect() empties: left-overs of a broken stream are parsed as the start of the next' % acc[0])
             ctx.need(False, '_readData: neither the size - len(data) nor the missing-bytes counter scheme')
         ctx.inst('R4', rdd, 'loop-until-complete', ok_loop, 'the loop continues while bytes are missing; test %s' % conj)
         ctx.inst('R4', rdd, 'request-missing-bytes', ok_req, 'each recv asks for exactly the missing bytes; found %s' % [norm(c) for c in rc])
